@@ -392,7 +392,7 @@ Proof.
     rewrite dee_res3. cbn [w_i32]. rewrite be_bytes_length.
     destruct (Nat.ltb_spec (j - 1) 4).
     + rewrite res3_lt by lia. rewrite eofc_pos by lia. reflexivity.
-    + rewrite res3_ge by lia. cbn [tbind]. rewrite s8_w8 by lia. do 3 f_equal. lia.
+    + rewrite res3_ge by lia. cbn [tbind]. replace (size <? 0) with false by lia. rewrite s8_w8 by lia. do 3 f_equal. lia.
   - unfold w_list. destruct (size <=? 14) eqn:E.
     + rewrite nib by lia. intros j rest. unfold r_list. rewrite (r_byte_spec _ j rest), tbind_res3. cbn [length].
       unfold res3. destruct (j <? 1)%nat; [reflexivity|].
@@ -431,7 +431,7 @@ Proof.
     rewrite dee_res3. cbn [w_i32]. rewrite be_bytes_length.
     destruct (Nat.ltb_spec (j - 1 - 1) 4).
     + rewrite res3_lt by lia. rewrite eofc_pos by lia. reflexivity.
-    + rewrite res3_ge by lia. cbn [tbind]. rewrite !s8_w8 by lia. do 3 f_equal. lia.
+    + rewrite res3_ge by lia. cbn [tbind]. replace (size <? 0) with false by lia. rewrite !s8_w8 by lia. do 3 f_equal. lia.
   - intros j rest. unfold w_map, r_map, map_res. rewrite <- app_assoc.
     rewrite (r_uvarint_spec (2 ^ 31 - 1) size ltac:(lia) ltac:(lia) j), tbind_res3. rewrite app_length.
     pose proof (uvarint_length size) as Hul.
